@@ -320,9 +320,14 @@ for _n in ("__len__", "__iter__", "__getitem__", "lower", "upper", "strip", "lst
 
 
 # ---- range / len / int shadows installed into the analysed module's globals ----------------
+_ITER_STACK = []   # active MarkerSet iterations (innermost last)
+
+
 class RangeMarker:
-    """What iterating range(lo, hi) with symbolic bounds yields: one marker for the whole
-    half-open integer interval [lo, hi)."""
+    """What iterating range(lo, hi) with symbolic bounds yields: one marker for the whole NON-EMPTY half-open
+    integer interval [lo, hi).  An order comparison with a number is answered for all members at once when they
+    agree; otherwise the marker is split: it keeps the members for which the comparison is true and the rest is
+    handed to the enclosing MarkerSet iteration as a further element (so every member meets the right branch)."""
 
     def __init__(self, lo, hi):
         self.lo, self.hi = lo, hi
@@ -331,6 +336,92 @@ class RangeMarker:
         return token_for(self)
 
     __repr__ = __str__
+
+    def _split(self, true_lo, true_hi, rest):
+        if not _ITER_STACK:
+            raise Unsupported("a symbolic range must be split outside an iteration over a symbolic set")
+        frame = _ITER_STACK[-1]
+        self.lo, self.hi = true_lo, true_hi
+        for lo, hi in rest:
+            m = RangeMarker(lo, hi)
+            frame["queue"].append(m)
+            set.add(frame["owner"], m)
+
+    def _order(self, other, kind):
+        if not _isnum(other):
+            return NotImplemented
+        x = other if isinstance(other, SymInt) else SymInt(z3.IntVal(other))
+        lo = self.lo if isinstance(self.lo, SymInt) else SymInt(_t(self.lo))
+        hi = self.hi if isinstance(self.hi, SymInt) else SymInt(_t(self.hi))
+        # boundary b: members >= b are on one side, members < b on the other
+        b = x if kind in ("ge", "lt") else x + 1
+        upper_true = kind in ("ge", "gt")
+        if lo >= b:          # every member is >= b
+            return upper_true
+        if hi <= b:          # every member is < b
+            return not upper_true
+        if upper_true:
+            self._split(b, hi, [(lo, b)])
+        else:
+            self._split(lo, b, [(b, hi)])
+        return True
+
+    def __ge__(self, o):
+        return self._order(o, "ge")
+
+    def __gt__(self, o):
+        return self._order(o, "gt")
+
+    def __le__(self, o):
+        return self._order(o, "le")
+
+    def __lt__(self, o):
+        return self._order(o, "lt")
+
+    def __eq__(self, o):
+        if isinstance(o, RangeMarker):
+            return o is self
+        if not _isnum(o):
+            return False
+        x = o if isinstance(o, SymInt) else SymInt(z3.IntVal(o))
+        lo = self.lo if isinstance(self.lo, SymInt) else SymInt(_t(self.lo))
+        hi = self.hi if isinstance(self.hi, SymInt) else SymInt(_t(self.hi))
+        if x < lo:
+            return False
+        if x >= hi:
+            return False
+        if (hi - lo) == 1:
+            return True
+        # x is one of several members: isolate it
+        self._split(x, x + 1, [(lo, x), (x + 1, hi)])
+        return True
+
+    def __ne__(self, o):
+        r = self.__eq__(o)
+        return (not r) if isinstance(r, bool) else r
+
+    def __hash__(self):
+        return id(self)
+
+
+class MarkerSet(set):
+    """`set` as seen by the analysed bins module: iteration tolerates markers being split on the way"""
+
+    def __iter__(self):
+        import collections
+        frame = {"queue": collections.deque(set.__iter__(self)), "owner": self}
+        _ITER_STACK.append(frame)
+        try:
+            while frame["queue"]:
+                item = frame["queue"].popleft()
+                if isinstance(item, RangeMarker):
+                    lo = item.lo if isinstance(item.lo, SymInt) else SymInt(_t(item.lo))
+                    if lo >= item.hi:      # empty range: no member to visit
+                        continue
+                yield item
+        finally:
+            if frame in _ITER_STACK:
+                _ITER_STACK.remove(frame)
 
 
 class SymRange:
@@ -419,13 +510,13 @@ class SetList(list):
 
 def sym_list(x=()):
     if isinstance(x, (set, frozenset)) and any(isinstance(i, RangeMarker) for i in x):
-        return SetList(x)
+        return SetList(set.__iter__(x))
     return builtins.list(x)
 
 
 def install(module, names=("int", "range", "len")):
     """Shadow builtins in the globals of a module of the code under analysis."""
-    m = {"int": sym_int, "range": sym_range, "len": sym_len, "list": sym_list}
+    m = {"int": sym_int, "range": sym_range, "len": sym_len, "list": sym_list, "set": MarkerSet}
     for n in names:
         setattr(module, n, m[n])
 
